@@ -79,7 +79,7 @@ def check_zone(ctx, tz, label, kind, z, pz, classify_k3):
         elif back != u:
             bad.append('back-conversion gives %s' % back.isoformat())
         if bad:
-            if classify_k3 and tzzoo.k3_applies(pz):
+            if classify_k3 and tzzoo.k3_explains(pz, u) and got[1] in (pz.stdoff, pz.dstoff):
                 ctx.known_finding('K3', '%s at %s: %s' % (label, u.isoformat(), bad[0]), case)
                 continue
             nbad += 1
